@@ -9,6 +9,15 @@
    exact sum, a value that is not -inf although a term is, pipelines / dispatcher
    arms / sub-range calls that do not return identical values, a panic on a
    correctly configured sequence.
+   Hand-written PROPFAIL paths next to the extracted checkers (all strictly additional, i.e. they can only
+   ADD a PROPFAIL, never replace a checker's decision; named in the SPEC's trusted base): a panic of a full
+   scan / in-range sub-range / unstripe / score_position on a configured sequence; `count n expected L-M+1`
+   (the same test is inside check_C01; kept for the message); unstripe order (value i = cell (i mod rows,
+   i / rows) of the observed matrix); Index / score_position / ScoringMatrix::score that differ from
+   unstripe()'s value at the same position; iter().rev() that is not the reverse of unstripe(); in histories
+   len() <> L-M+1, is_empty() <> (L < M), Vec::from / rev <> unstripe.
+   No comparison is skipped silently: a case whose SIMD kernel model is replayed on sampled rows only says so
+   in its verdict (`OK sampled-kernel-replays=n`); anything the driver cannot parse or evaluate is a DIFF.
    DIFF: the implementation differs from the extracted model (cells incl. padding
    cells, max_index, panics, unstripe, Index, score_position, the Striped hypothesis
    on the matrix the library built) without failing the property checker. *)
@@ -111,6 +120,9 @@ let parse_sq tok : sseq =
   | _ -> failwith "bad striped matrix token"
 
 exception Done
+
+(* calls of a case whose extracted SIMD kernel model was replayed on sampled rows only (cost budget) *)
+let sampled_calls = ref 0
 
 (* ---- HISTORY cases: one reused StripedScores buffer driven through a list of calls ----
    Every step is replayed with the extracted model ScoresModel.hstep from the state the
@@ -256,6 +268,7 @@ let () =
         let id = List.hd toks in
         Hashtbl.reset parse_cache; Hashtbl.reset scores_cache; Hashtbl.reset cobs_cache;
         let propfail = ref None and diff = ref None in
+        sampled_calls := 0;
         let pf s = if !propfail = None then propfail := Some s in
         let df s = if !diff = None then diff := Some s in
         if layout_bad then df "avx2 lane tables fail the layout check (avx2_layout_ok)";
@@ -281,16 +294,17 @@ let () =
           let pad_row : f32 list = List.init (stride - k) (fun _ -> pad) in
           let pads : nat -> f32 list = fun _ -> pad_row in
           let seq_s = if get "seq" = "-" then "" else get "seq" in
-          let l = String.length seq_s in
-          let s_int = List.init l (fun i -> String.index alpha seq_s.[i]) in
-          let s : nat list = List.map nat_of_int s_int in
+          (* how the striped sequence was built: Stripe::stripe (default), StripedSequence::new on a hand-made
+             matrix (src=new.<extra>.<letters>) or StripedSequence::sample (src=sample.<seed>) *)
+          let src = match List.assoc_opt "src" fields with
+            | None -> "stripe" | Some v -> List.hd (String.split_on_char '.' v) in
+          let padded_src = src <> "stripe" in
           let ranges =
             if get "rows" = "-" then []
             else List.map (fun r -> match String.split_on_char ':' r with
                 | [a; b] -> (int_of_string a, int_of_string b) | _ -> failwith "range")
                 (String.split_on_char ',' (get "rows")) in
           let ints v = if v = "-" || v = "" then [] else List.map int_of_string (String.split_on_char ',' v) in
-          let r_rows = (l + c - 1) / c in
           (* ---- the striped matrix built by the library ---- *)
           let (q : sseq), wrap =
             match String.split_on_char '/' (oget "sq") with
@@ -306,7 +320,31 @@ let () =
             List.fold_left (fun acc w -> max acc (if w = "m" then max 0 (m - 1) else int_of_string w)) 0
               (String.split_on_char '+' (get "wrap")) in
           if wrap <> expected_wrap then df (Printf.sprintf "wrap %d expected %d" wrap expected_wrap);
-          if not (x_striped_b cn wild s q) then df "striped-hypothesis";
+          (* the sequence: the input's for stripe / new; for new / sample it is ALSO read off the matrix the
+             library built (ScorePadModel.logical_seq = Index<usize> at 0 .. len-1) and compared with the
+             lq= token (the public Index) and, for new, with the input *)
+          let s : nat list =
+            if padded_src then x_logical_seq cn wild q
+            else List.init (String.length seq_s) (fun i -> nat_of_int (String.index alpha seq_s.[i])) in
+          let l = List.length s in
+          if padded_src then begin
+            let letters = String.concat "" (List.map (fun x -> String.make 1 (Char.chr (97 + int_of_nat x))) s) in
+            let lq = if oget "lq" = "-" then "" else oget "lq" in
+            if lq <> letters then df "Index<usize> of the striped sequence differs from the logical sequence of its matrix";
+            if src = "new" then begin
+              let want = String.concat "" (List.init (String.length seq_s)
+                                             (fun i -> String.make 1 (Char.chr (97 + String.index alpha seq_s.[i])))) in
+              if want <> letters then df "StripedSequence::new: the logical sequence is not the input sequence"
+            end else if l <> int_of_string (get "L") then df "StripedSequence::sample: len() is not the requested length"
+          end;
+          (* the hypothesis of the value theorems, decided by an extracted checker on the observed matrix:
+             Striped (C01.striped_b_sound) after Stripe::stripe, Padded (C01.check_padded_sound) after new / sample *)
+          if padded_src then begin
+            if not (x_padded_b cn wild q) then df "padded-hypothesis"
+          end else if not (x_striped_b cn wild s q) then df "striped-hypothesis";
+          (* rows that hold the sequence: rows - wrap (= ceil(L/C) after stripe / sample; new may have more) *)
+          let r_rows = max 0 (List.length q.sq_mat - wrap) in
+          if not (padded_src && src = "new") && r_rows <> (l + c - 1) / c then df "number of sequence rows";
           let configured = m >= 1 && wrap >= m - 1 in
           let nvals = max 0 (l + 1 - m) in
           (* ---- pipelines ---- *)
@@ -327,6 +365,7 @@ let () =
           (* compare one observed call with the model of pipeline p on rows [a, b) *)
           (* the generic model's full scan is needed twice (cells, then unstripe/Index): computed once *)
           let model_full = lazy (x_score_with (rows_into "g") q) in
+          let sampled = sampled_calls in
           let check_call p what (o : obs) (a : int) (b : int) (old : f32 sscores) full =
             let run a b =
               if full then (if p = "g" then Lazy.force model_full else x_score_with (rows_into p) q)
@@ -337,8 +376,13 @@ let () =
               | None -> df (Printf.sprintf "%s%s model-error" p what)
               | Some mo -> if mo <> o then df (Printf.sprintf "%s%s cells-or-outcome" p what)
             end else begin
-              (* too costly for a full replay: guards + a sample of rows, each through a one-row call
-                 (rows of a sub-range call = rows of the full scan: score_rows_sub) *)
+              (* too costly for a full replay of the extracted SIMD kernel model: guards + a sample of rows,
+                 each through a one-row call (rows of a sub-range call = rows of the full scan: score_rows_sub).
+                 Nothing of the PROPERTY is skipped here: the observed cells of this pipeline are still compared
+                 in full with the generic pipeline's observed cells (check_same_results) and those in full with
+                 the generic model; only "kernel model = observed kernel" is sampled.  Counted and reported in
+                 the verdict (`OK sampled-kernel-replays=n`) and in the histogram (props/c01.py). *)
+              incr sampled;
               match o with
               | OP -> ()
               | OM (mx, rows) ->
@@ -527,7 +571,9 @@ let () =
         (match !propfail, !diff with
          | Some s, _ -> print_endline (id ^ " PROPFAIL " ^ s)
          | None, Some s -> print_endline (id ^ " DIFF " ^ s)
-         | None, None -> print_endline (id ^ " OK"))
+         | None, None ->
+             print_endline (if !sampled_calls = 0 then id ^ " OK"
+                            else Printf.sprintf "%s OK sampled-kernel-replays=%d" id !sampled_calls))
       end
     done
   with End_of_file -> ()
